@@ -4,6 +4,7 @@ import MosnVerif.Drive.C12
 import MosnVerif.Model.ConfigCodec
 import MosnVerif.Model.ConfigDir
 import MosnVerif.Model.ConfigPairs2
+import MosnVerif.Drive.C19Order
 /-!
 Driver of C19.  `<esc>` = every byte outside [A-Za-z0-9_.-] as %XX; JSON is compared key-sorted and compact.
 
@@ -159,6 +160,8 @@ def run (caseToks impl : List String) : String :=
   match caseToks with
   -- router histories mixing directory-mode, static and code-built configurations, then dump → reload (the `mode` cases of C12)
   | "dynupd" :: ops => MosnVerif.Drive.C12.mode ops impl
+  -- order of the lists across dump and reload (Drive/C19Order.lean)
+  | "order" :: rest => MosnVerif.Drive.C19Order.order rest impl
   | ["generic", s, w] =>
     match shapeOf s, getJson w, implPair impl with
     | some sh, some w, some im => verdict (cycle2 (decode sh) (encode sh) w) im
